@@ -25,8 +25,13 @@ def main():
     class RecProc(RecThr):
         uses_threads = False; supports_sharedmem = False; kind = "proc"
     register_parallel_backend("threading", RecThr)
-    register_parallel_backend("loky", RecProc)
-    register_parallel_backend("multiprocessing", RecProc)
+    if job.get("default_backend") != "nomp":
+        register_parallel_backend("loky", RecProc)
+        register_parallel_backend("multiprocessing", RecProc)
+    else:
+        # JOBLIB_MULTIPROCESSING=0: no process-based backend is registered in this interpreter
+        from joblib.parallel import BACKENDS
+        assert "loky" not in BACKENDS and "multiprocessing" not in BACKENDS, sorted(BACKENDS)
     if job.get("default_backend") == "thr":
         register_parallel_backend("threading", RecThr, make_default=True)
 
@@ -97,7 +102,12 @@ def main():
                             except KeyError: cm.__exit__(*sys.exc_info())
                         else: cm.__exit__(None, None, None)
                     elif cmd[0] == "observe":
-                        res = [observe(e) for e in job["explicits"]]
+                        if cmd[1]:
+                            # reversed order of the explicit variants (what one construction leaves behind - e.g. a name bound on
+                            # first use - must not change what a later one resolves to)
+                            res = [observe(e) for e in reversed(job["explicits"])][::-1]
+                        else:
+                            res = [observe(e) for e in job["explicits"]]
                 except BaseException as ex:
                     res = {"exc": repr(ex)[:200]}
                 done.put(res)
@@ -110,7 +120,7 @@ def main():
             r = done.get()
             if isinstance(r, dict): problems.append({"step": step, "kind": "action_raised", "detail": r["exc"]}); break
             for t in (1, 2):
-                qs[t].put(("observe",)); got = done.get()
+                qs[t].put(("observe", pi % 2 == 0 and job.get("default_backend") == "nomp")); got = done.get()
                 if isinstance(got, dict): problems.append({"step": step, "kind": "observe_raised", "thread": t, "detail": got["exc"]}); continue
                 for i, (g, x) in enumerate(zip(got, e["obs"][t - 1])):
                     w = expected(x)
